@@ -2,6 +2,7 @@ import KyupyVerif.Proofs.NetlistBF
 import KyupyVerif.Proofs.BenchText
 import KyupyVerif.Proofs.VerilogText
 import KyupyVerif.Proofs.BenchEnd
+import KyupyVerif.Proofs.BenchErr
 import KyupyVerif.Proofs.VerilogEnd
 import KyupyVerif.Proofs.SemL
 /-! # C11 — parsed Verilog and bench netlists simulate as the described netlist
@@ -749,6 +750,10 @@ theorem bench_ok_iff (stmts : List BStmt) (h : benchOKB stmts = true) :
     ((benchGates stmts).map (·.name)).Nodup ∧ ∀ g ∈ benchGates stmts, g.kind ≠ forkKind := by
   obtain ⟨h1, h2⟩ := benchOK_of stmts h
   exact ⟨h1, fun g hg => by simpa using List.all_eq_true.mp h2 g hg⟩
+
+/-- … and it is exactly the condition under which the parser model does not set `err` (the real `bench.parse` raises exactly
+when the model sets `err`: exact correspondence) -/
+theorem bench_ok_is_no_error (stmts : List BStmt) : (bench stmts).err = !benchOKB stmts := bench_err stmts
 
 /-- the ports of the net are the names of the INPUT/OUTPUT statements in text order, each the fork of that name -/
 theorem bench_net_ports (stmts : List BStmt) :
